@@ -17,6 +17,8 @@ RULE = ("structured programs (assignments of +,-,* expressions over tracked vari
         "canonical trace is identical for a second input vector that takes other branches / iteration counts. "
         "Non-trivial = the two input vectors differ in the outcome of >= 1 secret condition and >= 1 assignment sits in "
         "a branch not taken; distinct by (program, inputs) digest.")
+RULE += " Extensions (seeded rounds 10-15): containers written through local names taken before the block, programs compiled at large line offsets, programs run inside an except handler, an iteration cap (a loop that does not stop is a violation)."
+
 
 CMP = ["<", "<=", "==", "!=", ">", ">="]
 
